@@ -751,7 +751,8 @@ pub fn run(which: &'static str, tier: &str, seed: u64, out: &str, engine_plain: 
     let wall_cap = if thorough { 6000.0 } else { 900.0 };
     'outer: for (name, fen) in SWEEP_POSITIONS {
         let b = board(fen);
-        for d in [2u8, 3, 4, 5] {
+        // depth 1 too: an interruption inside the very first iteration, then a depth-1 search
+        for d in [1u8, 2, 3, 4, 5] {
             if rep.saturated() {
                 break 'outer;
             }
